@@ -709,6 +709,7 @@ func init() {
 			if idx >= histCases(maxLen) && !m.DefErr && !m.Cycle && r.chance(1, 8) {
 				// the graph has been run before (a chain of tasks that completed); half of the new tasks depend on one of them
 				spec.PreTasks, spec.PreLink = 2+r.intn(3), true
+				spec.PreSkip = r.chance(1, 3)
 				if r.chance(1, 3) {
 					// ... and is extended through TaskDependsOn only (tasks are added implicitly), without a limit of its own
 					hist = nil
